@@ -448,8 +448,9 @@ GRID_SECTIONS = {"grid", "size", "nmax", "status", "area", "area_views_agree", "
 GRID_TB = ["tables of the grid model are regenerated from raster_grid.hpp / profile_grid.hpp / base.hpp by translate.py on every run",
            "xtensor view assignment semantics of set_nodes_status modelled by hand (tied by exhaustive border-mix correspondence)"]
 
-register("C07", lean_modules=["FsModel.U64", "FsProofs.Properties.C07", "FsProofs.Properties.C07Sym"],
-         theorems=["Fs.C07.rasterNbIdx_range", "Fs.C07.rasterNbIdx_length", "Fs.C07.rasterNbIdx_count_symm", "Fs.C07.rasterNbIdx_mem_symm", "Fs.C07.rasterNbIdx_not_self",
+register("C07", lean_modules=["FsModel.U64", "FsProofs.Properties.C07", "FsProofs.Properties.C07Sym", "FsProofs.Properties.ClosedMesh"],
+         theorems=["Fs.Closed.rasterTopo_ok", "Fs.Closed.rasterTopo_hsym", "Fs.Closed.profile_topoOk", "Fs.Closed.profile_C06_single", "Fs.Closed.profile_C01_pflood_single",
+                   "Fs.C07.rasterNbIdx_range", "Fs.C07.rasterNbIdx_length", "Fs.C07.rasterNbIdx_count_symm", "Fs.C07.rasterNbIdx_mem_symm", "Fs.C07.rasterNbIdx_not_self",
                    "Fs.C07.rasterNbDist_length", "Fs.C07.rasterNbDist_eq_geom", "Fs.C07.stepDist_exact", "Fs.C07.stepDist_field", "Fs.C07.rasterNb_dist_symm", "Fs.C07.rasterNb_weighted_symm",
                    "Fs.C07.profileNbIdx_range", "Fs.C07.profileNbIdx_count_symm", "Fs.C07.profileNbIdx_not_self", "Fs.C07.offs_neg_perm",
                    "Fs.C07.rasterNbIdx_eq_geom", "Fs.C07.codeOffsets_eq_geom", "Fs.C07.count_eq_length", "Fs.C07.count_table_spec",
@@ -924,8 +925,8 @@ def mesh_tags(si):
 
 register("C18", gen=gen_meshes, oracles=[oracle.c18], nontrivial=grid_nontrivial, tags=mesh_tags,
          sections={"grid", "size", "status", "area", "area_views_agree", "q", "iter", "base"},
-         lean_modules=["FsModel.Mesh", "FsProofs.Area", "FsProofs.Properties.C18"],
-         theorems=["Fs.C18.mem_nbrs", "Fs.C18.nbrs_symm", "Fs.C18.nbrs_nodup", "Fs.C18.count_spec", "Fs.C18.isBoundary_iff", "Fs.C18.isBoundary_iff_tri", "Fs.C18.statusDefault_spec",
+         lean_modules=["FsModel.Mesh", "FsProofs.Area", "FsProofs.Properties.C18", "FsProofs.Properties.ClosedMesh"],
+         theorems=["Fs.Closed.meshTopo_ok", "Fs.Closed.meshTopo_hsym", "Fs.Closed.meshTopo_dist_pos", "Fs.Closed.mesh_C06_single", "Fs.Closed.mesh_C08_fits", "Fs.Closed.mesh_C01_pflood_single", "Fs.Closed.mesh_C01_mst", "Fs.C18.mem_nbrs", "Fs.C18.nbrs_symm", "Fs.C18.nbrs_nodup", "Fs.C18.count_spec", "Fs.C18.isBoundary_iff", "Fs.C18.isBoundary_iff_tri", "Fs.C18.statusDefault_spec",
                    "Fs.C18.binAreas_sum", "Fs.C18.areas_sum", "Fs.C18.areas_sum_geom", "Fs.C18.areas_sum_exactSqrt", "Fs.C18.dist_symm", "Fs.C18.dist_withSqrt",
                    "Fs.Mesh.edgeMap_spec", "Fs.Mesh.insertEdge_unique", "tri_area_partition"],
          rule="jittered / flipped lattices with holes, isolated nodes, random vertex order inside triangles and random node relabelling; default, map and array status incl. malformed ones (looped entry, out-of-range index, wrong length); neighbours compared as index-sorted lists, status and areas bit for bit; oracle recomputes edges, boundary and exact circumcentric shares in rationals; non-trivial = mesh accepted and queried",
